@@ -369,6 +369,21 @@ theorem lookup_eq (m : List (String × String)) (k v : String) :
       simp only [GoLite.Map.lookup, GoLite.Map.get?, List.find?, h'', List.lookup, h'] at ih ⊢
       exact ih
 
+theorem lookup_spec (m : List (String × String)) (k : String) :
+    GoLite.Map.lookup m k = match List.lookup k m with
+      | some v => (v, true)
+      | none => ("", false) := by
+  induction m with
+  | nil => rfl
+  | cons a m ih =>
+    obtain ⟨k', v'⟩ := a
+    by_cases h : k' = k
+    · subst h; simp [GoLite.Map.lookup, GoLite.Map.get?, List.lookup]
+    · have h' : (k == k') = false := by simp; exact fun e => h e.symm
+      have h'' : (k' == k) = false := by simp [h]
+      simp only [GoLite.Map.lookup, GoLite.Map.get?, List.find?, h'', List.lookup, h'] at ih ⊢
+      exact ih
+
 def mstep (ann : List (String × String)) (_ : Unit) (kv : String × String) : Except Unit Unit :=
   if List.lookup kv.1 ann == some kv.2 then .ok () else .error ()
 
@@ -391,10 +406,17 @@ theorem verifyUserMetadata_all (p : envelope.Payload) (req : List (String × Str
         (fun _ => (none, ())) (fun _ _ => (some (some (GoLite.errT "notation.ErrorUserMetadataVerificationFailed" "")), ())) ?h _ _ () rfl]
   case h =>
     intro a t
-    have := lookup_eq p.TargetArtifact.Annotations a.1 a.2
-    by_cases hb : (List.lookup a.1 p.TargetArtifact.Annotations == some a.2) = true
-    · simp [mstep, hb, this]
-    · simp [mstep, hb, this]
+    -- whatever shape the test has (one condition, two ifs, comma-ok or not): decide the lookup, then compute
+    simp only [lookup_spec]
+    cases hl : List.lookup a.1 p.TargetArtifact.Annotations with
+    | none => simp [mstep, hl]
+    | some w =>
+      by_cases hw : w = a.2
+      · simp [mstep, hl, hw]
+      · have hw' : (w == a.2) = false := by simpa using hw
+        have hw2 : ¬ a.2 = w := fun e => hw e.symm
+        have hw2' : (a.2 == w) = false := by simpa using hw2
+        simp [mstep, hl, hw, hw', hw2, hw2', bne]
   rw [← foldE_all]
   cases GoLite.foldE (mstep p.TargetArtifact.Annotations) req () with
   | ok t => simp only [pure_bind]; rfl
